@@ -17,6 +17,7 @@ import (
 	"context"
 	"errors"
 	"net"
+	"strconv"
 	"sync"
 	"sync/atomic"
 	"time"
@@ -95,6 +96,7 @@ func mgPace(how string) string {
 	}()
 
 	conns := &mgPaceConns{lis: lis, first: make(chan struct{})}
+	acct := &mgAcct{}
 	synced := make(chan struct{})
 	var syncOnce sync.Once
 	cfg := manager.Config{
@@ -102,7 +104,7 @@ func mgPace(how string) string {
 		Reset:             func(string) {},
 		Sync:              func(string) { syncOnce.Do(func() { close(synced) }) },
 		Update:            func(string, *gpb.Notification) {},
-		ConnectionManager: conns,
+		ConnectionManager: &mgAcctCM{inner: conns, acct: acct},
 	}
 	if how == "rt" {
 		cfg.ReceiveTimeout = scaled(40 * time.Millisecond)
@@ -159,5 +161,6 @@ func mgPace(how string) string {
 	if !rm() {
 		d = "0"
 	}
-	return "paced=" + paced + " done=" + d
+	_, leak, twice, _ := acct.counts("")
+	return "paced=" + paced + " done=" + d + " leak=" + strconv.Itoa(leak) + " twice=" + strconv.Itoa(twice)
 }
